@@ -655,7 +655,15 @@ bool dispatch_api(State& st, const std::string& op, const json& a, json& ret)
         st.reset();
         bool created = false;
         eng::engine_schema loaded = static_cast<eng::engine_schema>(-1);
-        st.db = eng::create_or_load_database(a.at("dir").get<std::string>(), need_schema(a), created, loaded);
+        if (a.value("alias", false))
+        {
+            // the caller's one variable serves as requested and as reported version
+            eng::engine_schema both = need_schema(a);
+            st.db = eng::create_or_load_database(a.at("dir").get<std::string>(), both, created, both);
+            loaded = both;
+        }
+        else
+            st.db = eng::create_or_load_database(a.at("dir").get<std::string>(), need_schema(a), created, loaded);
         ret["created"] = created;
         ret["loaded_schema"] = eng::to_string(loaded);
         ret["loaded_schema_ord"] = (int)loaded;
@@ -1156,6 +1164,54 @@ bool dispatch_api(State& st, const std::string& op, const json& a, json& ret)
     if (op == "rawdump")
     {
         ret = rawdump(a);
+        return true;
+    }
+    if (op == "foreign_reorder")
+    {
+        // What Engine DJ does when the user drags the last item of a list to the top: the chain is re-linked by a
+        // foreign writer, so that chain order no longer follows id order.  2.x only; nothing happens with < 2 items.
+        // {"c": handle}            -> the entries of that crate
+        // {"siblings_of": handle|null} -> the child crates of that crate (or the root crates)
+        if (!st.is_v2) throw harness_error("foreign_reorder is for 2.x libraries");
+        sqlite3* conn = lib_conn();
+        bool ents = a.contains("c");
+        int64_t key = 0;
+        if (ents)
+            key = st.C(a.at("c").get<std::string>()).id();
+        else if (!a.at("siblings_of").is_null())
+            key = st.C(a.at("siblings_of").get<std::string>()).id();
+        json rows = raw_query(conn, ents ? "SELECT id, nextEntityId FROM PlaylistEntity WHERE listId = ?"
+                                         : "SELECT id, nextListId FROM Playlist WHERE parentListId = ?",
+                              json::array({key}))["rows"];
+        std::map<int64_t, int64_t> next;
+        std::set<int64_t> pointed;
+        for (auto& r : rows)
+        {
+            next[r[0].get<int64_t>()] = r[1].get<int64_t>();
+            if (r[1].get<int64_t>() != 0) pointed.insert(r[1].get<int64_t>());
+        }
+        ret["items"] = (int)next.size();
+        ret["moved"] = false;
+        if (next.size() >= 2)
+        {
+            int64_t first = 0, last = 0, before_last = 0;
+            for (auto& [id, nx] : next)
+            {
+                if (!pointed.count(id)) first = id;
+                if (nx == 0) last = id;
+            }
+            for (auto& [id, nx] : next)
+                if (nx == last) before_last = id;
+            if (first && last && before_last && first != last)
+            {
+                const char* tbl = ents ? "PlaylistEntity" : "Playlist";
+                const char* col = ents ? "nextEntityId" : "nextListId";
+                raw_query(conn, std::string("UPDATE ") + tbl + " SET " + col + " = 0 WHERE id = ?", json::array({before_last}));
+                raw_query(conn, std::string("UPDATE ") + tbl + " SET " + col + " = ? WHERE id = ?", json::array({first, last}));
+                ret["moved"] = true;
+                ret["moved_id"] = last;
+            }
+        }
         return true;
     }
     if (op == "raw_exec")
